@@ -424,3 +424,96 @@ parse_block_atom = FunctionContract(
             ("atom['mass'] = float(tokens.popleft())", "atom['mass'] = atom['charge']")],
 )
 CONTRACTS.append(parse_block_atom)
+
+
+# ------------------------------------------------------------------ _treat_block_interaction_atoms: names and 1-based numbers
+Tok = TKey('Tok')                                           # a token of the line / an atom name (abstract: z3 strings are slow)
+RefTok = TTuple(Tok, AttrD)
+
+
+def setup_tbia(cx):
+    from pyvc.values import IterV
+    from pyvc.builtins import _int
+    eng = cx.eng
+    ATOMS = cx.heap('ATOMS', cx.box('ATOMS', TSeq(RefTok)))    # the [reference, attributes] pairs of the line (mutable pairs)
+    NAMES = cx.val('NAMES', TSeq(Tok))                          # the atom names of the block, in order
+    cx.spec_env['NAMES'] = NAMES
+    in_block = cx.uf('in_block', [Tok], TBool)                 # the string is the name of an atom of the block
+    isnum = cx.uf('isnum', [Tok], TBool)                       # str.isdigit(): non-empty, digits only
+    num_of = cx.uf('num_of', [Tok], TInt)                      # int(s) of such a string
+    first = cx.uf('first_char', [Tok], TChar)                  # s[0]
+    j = z3.Int('nj')
+    st, nt = TSeq(RefTok), TSeq(Tok)
+    cx.assume(z3.ForAll([j], z3.Implies(z3.And(0 <= j, j < nt.len(NAMES.e)), in_block(nt.at(NAMES.e, j)))))
+    eng.methods[('Tok', 'isdigit')] = lambda e, t: wrap(TBool, isnum(to_z3(t, Tok)))
+    eng.methods[('Tok', '__getitem__')] = lambda e, t, k: SV(TChar, first(to_z3(t, Tok))) if k == 0 else \
+        (_ for _ in ()).throw(EngineError('token[%r]' % (k,)))
+    n0 = st.len(ATOMS.e)
+
+    def tok(i):
+        i = _int(i)
+
+        def getitem(e, k):
+            if k != 0:
+                raise EngineError('atom[%r]' % (k,))
+            return SV(Tok, RefTok.get(st.at(ATOMS.e, i), 0))
+
+        def setitem(e, k, v):
+            if k != 0:
+                raise EngineError('atom[%r] = ...' % (k,))
+            cur = st.at(ATOMS.e, i)
+            ATOMS.e = st.mk(st.len(ATOMS.e), z3.Store(st.arr(ATOMS.e), i, RefTok.mk(to_z3(v, Tok), RefTok.get(cur, 1))))
+        return Obj('atomtok', __getitem__=Builtin(getitem, 'atom[]'), __setitem__=Builtin(setitem, 'atom[]='))
+    atoms = Obj('atoms')
+    atoms.__dict__['iter'] = IterV(n0, tok)
+    nodes = Obj('NodeView')
+    nodes.__dict__['iter'] = NAMES
+    context = Obj('Block', nodes=nodes, name='block', __len__=Builtin(lambda e: SV(TInt, nt.len(NAMES.e)), 'len(block)'),
+                  __contains__=Builtin(lambda e, r: wrap(TBool, in_block(to_z3(r, Tok))), 'in block'))
+
+    def int_(e, x):
+        # int(s) of a string of ASCII digits (repo inputs are ASCII: isdigit() implies that int() succeeds)
+        if isinstance(x, SV) and x.ty == Tok:
+            e.maybe_raise(isnum(x.e), 'ValueError')
+            return SV(TInt, num_of(x.e))
+        raise EngineError('int(%r)' % (x,))
+    cx.spec_env['int'] = Builtin(int_, 'int')
+    return dict(atoms=atoms, context=context, section='bonds')
+
+
+SPEC_TBIA = {
+    'ref': "lambda k: old(ATOMS)[k][0]",
+    # what the k-th reference stands for: a number n is the n-th atom of the block, anything else is an atom name
+    'resolved': "lambda k: NAMES[num_of(ref(k)) - 1] if isnum(ref(k)) else ref(k)",
+    'bad': "lambda k: (num_of(ref(k)) > len(NAMES)) if isnum(ref(k)) else (not in_block(ref(k)) or first_char(ref(k)) in '+-<>')",
+}
+treat_block_atoms = FunctionContract(
+    F, '_treat_block_interaction_atoms', 'C13', setup=setup_tbia, spec_defs=SPEC_TBIA, spec_env=dict(AttrD=AttrD, Tok=Tok),
+    result_ty=TSeq(Tok), locals=dict(all_references=TSeq(Tok), atom_names=TSeq(Tok)),
+    requires=[
+        # a number is at least 1.  ASSUMED, and not checked by the code: '0' resolves to the last atom (known finding C13
+        # read_ff/fault-accepted/undefined-block-atom/index-zero)
+        "forall(lambda k: implies(0 <= k and k < len(ATOMS) and isnum(ATOMS[k][0]), num_of(ATOMS[k][0]) >= 1))",
+    ],
+    ensures=[
+        # every reference is resolved to the name of an atom of the block - a number n to the n-th atom, a name to itself -
+        # in the returned list and in the pairs themselves; attributes are untouched
+        "len(result) == len(old(ATOMS)) and len(ATOMS) == len(old(ATOMS))",
+        "forall(lambda k: implies(0 <= k and k < len(result), not bad(k) and result[k] == resolved(k) and ATOMS[k][0] == resolved(k) and "
+        "   ATOMS[k][1] == old(ATOMS)[k][1] and in_block(result[k])))",
+    ],
+    # a number beyond the block's atoms, an unknown name, or a name with an order prefix: IOError
+    raises={'OSError': ["exists(lambda k: 0 <= k and k < len(old(ATOMS)) and bad(k))"]},
+    modifies=['ATOMS'],
+    loops={'L1': LoopSpec(inv=[
+        "len(all_references) == _i and len(ATOMS) == len(old(ATOMS))",
+        "forall(lambda k: implies(0 <= k and k < _i, not bad(k) and all_references[k] == resolved(k) and ATOMS[k][0] == resolved(k) and "
+        "   in_block(all_references[k])))",
+        "forall(lambda k: implies(0 <= k and k < len(ATOMS), ATOMS[k][1] == old(ATOMS)[k][1]))",
+        "forall(lambda k: implies(_i <= k and k < len(ATOMS), ATOMS[k][0] == old(ATOMS)[k][0]))"],
+        modifies=['ATOMS', 'all_references'])},
+    canary=[("reference = int(reference) - 1", "reference = int(reference)"),
+            ("if reference not in context:", "if reference in context:"),
+            ("atom[0] = reference", "pass")],
+)
+CONTRACTS.append(treat_block_atoms)
